@@ -276,7 +276,9 @@ fn lookups(rep: &mut Report, shard: u64, nshards: u64) {
             rep.evaluations += 1;
             rep.count("lookups.descriptor_names");
             let replay = json!({"cmd": "c16", "class": cname, "prop": pn});
-            let dom = WeakDom::new(InstanceBuilder::new("DataModel").with_child(InstanceBuilder::new(cname).with_property(pn, v)));
+            // a second, bare instance of the class: the binary writer fills its gap from the database default,
+            // looked up from whatever spelling the first instance used
+            let dom = WeakDom::new(InstanceBuilder::new("DataModel").with_child(InstanceBuilder::new(cname).with_property(pn, v)).with_child(InstanceBuilder::new(cname)));
             let roots = dom.root().children().to_vec();
             // what the database itself says about this name (independent walk): does it travel, and under which name does it come back
             let travels = dbwalk::travel(db, cname, pn).filter(|t| {
@@ -303,6 +305,17 @@ fn lookups(rep: &mut Report, shard: u64, nshards: u64) {
                                             return Err(t.back_name.clone());
                                         }
                                     }
+                                    let second = d.root().children().get(1).and_then(|c| d.get_by_ref(*c));
+                                    if let (true, Some(inst), Some(def)) = (fmt == "bin", second, dbwalk::default_for(db, cname, &t.back_name)) {
+                                        let no = |_: Ref| J::Null;
+                                        let want = canon::value(def, &no);
+                                        let got = inst.properties.get(&rbx_dom_weak::ustr(&t.back_name)).map(|v| canon::value(v, &no));
+                                        if let Some(g) = got {
+                                            if g != want && g["t"] != "UniqueId" && g["t"] != "Ref" {
+                                                return Err(format!("DEFAULT:{} is {} on an instance that lacked it; the database default is {}", t.back_name, g, want));
+                                            }
+                                        }
+                                    }
                                 }
                                 Ok(())
                             });
@@ -317,6 +330,12 @@ fn lookups(rep: &mut Report, shard: u64, nshards: u64) {
                 });
                 match res {
                     Err(p) => rep.violation(&format!("C16:lookup:{}:{}", fmt, panic_sig(&p)), &format!("{}.{} ({}): {}", cname, pn, fmt, p.msg), replay.clone(), J::Null),
+                    Ok((true, Err(e))) if e.starts_with("LOST:DEFAULT:") => rep.violation(
+                        &format!("C16:default-lookup-failed:{}.{}", cname, pn),
+                        &format!("{}.{}: first met under this spelling, {}", cname, pn, &e[13..]),
+                        replay.clone(),
+                        J::Null,
+                    ),
                     Ok((true, Err(e))) if e.starts_with("LOST:") => rep.violation(
                         &format!("C16:lookup-disagrees-with-database:{}", fmt),
                         &format!("{}.{}: the database says this property serializes and comes back as {}, but the {} codec's lookup drops it", cname, pn, &e[5..], fmt),
